@@ -9,6 +9,26 @@ CHECKS = {
         technique="explicit-state BFS over operation histories on the real Graph, state = canonical snapshot of all private indexes, every transition compared with a reference model",
         text="Every history over a small alphabet (3 names, 3 weights, 3 attributes, batches) up to the depth bound, from every reached state, for all 96 GraphSpecs, is executed on the real Graph; each call's result kind, node list, edge multiset and parallel-edge order are compared with an executable reference model of the statement, and a failing call must leave the full private snapshot unchanged. Exhaustive within the bound, which is where policy x orientation x re-add interactions live.",
         note="Trusted: the reference model in harness/src/model.rs (40 lines, the property's ladder), the feature-guarded snapshot accessor, 128-bit state hashing. Bounded: names {a,b,c}, weights {NaN,1,2}, depth as reported in the evidence."),
+    "C02": dict(
+        engine=E1, category="model_checking", design_ref="DESIGN.md §5 C02, §3 E1",
+        technique="explicit-state BFS over mutation histories; state invariant: every query x every argument compared with the graph's own base view, plus white-box coherence of the redundant private indexes",
+        text="On every distinct state reachable within the history bound (all 96 GraphSpecs) every query of src/graph/query.rs is called with every ordered pair, every subset and every index over the name universe plus an absent name, and must equal the answer computed from get_all_nodes()/get_all_edges(); the twelve private indexes are compared with one another through the snapshot accessor. Exhaustive over states and arguments, so the two orderings (by name / by position) are told apart.",
+        note="Trusted: base view = the graph's own get_all_nodes/get_all_edges (C01 ties that view to the reference model); snapshot accessor. Bounded names/weights/depth as reported."),
+    "C03": dict(
+        engine=E1, category="model_checking", design_ref="DESIGN.md §5 C03",
+        technique="explicit-state BFS over mutation histories with uniform weight alphabets; state invariant on the traversal lists + Bellman-Ford oracle + rebuilt-graph differential",
+        text="On every distinct state reached by histories over uniformly weighted ({1,2,3}) or unweighted edges (all 96 GraphSpecs): successors_vec/predecessors_vec neighbour sets and per-pair weights must equal the edge store's (bit for bit, minimum of parallel edges); weighted Dijkstra from every node must equal Bellman-Ford over get_all_edges(); and the history-built graph must agree with the graph rebuilt from its own lists on all_pairs, betweenness and closeness. The alphabet forces second-edge-smaller/larger histories under every duplicate policy at depth 2.",
+        note="Trusted: Bellman-Ford oracle (15 lines), snapshot accessor. Weights are small integers so sums are exact."),
+    "C09": dict(
+        engine=E1, category="model_checking", design_ref="DESIGN.md §5 C09",
+        technique="explicit-state BFS over mutation histories; state invariant: counts, degrees, handshake identities, density and adjacency-matrix entries recomputed from the edge multiset",
+        text="On every distinct state reached within the bound (all 96 GraphSpecs, so directed self-loops, parallel edges and name-order != insertion-order all occur): number_of_nodes/edges, size, every degree variant and *_for_all_nodes map, the handshake identities, degree centrality, density and every entry of the sparse adjacency matrix are compared with values computed from get_all_nodes()/get_all_edges().",
+        note="Trusted: base view; sprs CsMat::get. Density only for single-edge graphs with n>=2, degree_centrality for n>=2 (as the statement)."),
+    "C15": dict(
+        engine=E1, category="model_checking", design_ref="DESIGN.md §5 C15",
+        technique="explicit-state BFS over mutation histories; derived-state oracle (definition from the base view, source snapshot unchanged, C02/C03 oracles and one further C01 model step on every result)",
+        text="On every distinct state reached within the bound (all 96 GraphSpecs): get_subgraph for all 16 subsets (incl. an absent name), reverse (and twice), set_all_edge_weights for w in {1,5,NaN} and to_single_edges are compared with their definitions computed from the source's base view; the source's private snapshot must be unchanged; every result must satisfy the C02 and (on uniform graphs) C03 state oracles and, in the deep stages, one further operation of every kind on it must agree with the C01 reference model.",
+        note="Trusted: base view, reference model, snapshot accessor. Attributes of a collapsed edge are not asserted."),
 }
 
 PENDING = {}
